@@ -1017,6 +1017,13 @@ add_mul_float(Type& to, const Type x, const Type y, Rounding_Dir dir) {
     return assign_nan<To_Policy>(to, V_INF_MUL_ZERO);
   }
   // FIXME: missing check_inf_add_inf
+  if (is_inf_float<To_Policy>(to)
+      && !is_inf_float<From1_Policy>(x) && !is_nan_float<From1_Policy>(x)
+      && !is_inf_float<From2_Policy>(y) && !is_nan_float<From2_Policy>(y)) {
+    // An infinity is not changed by a finite product: the result is exact,
+    // even when the computed product is inexact or overflows.
+    return V_EQ;
+  }
   prepare_inexact<To_Policy>(dir);
   if (fpu_direct_rounding(dir)) {
     to = multiply_add(x, y, to);
@@ -1052,6 +1059,13 @@ sub_mul_float(Type& to, const Type x, const Type y, Rounding_Dir dir) {
     return assign_nan<To_Policy>(to, V_INF_MUL_ZERO);
   }
   // FIXME: missing check_inf_add_inf
+  if (is_inf_float<To_Policy>(to)
+      && !is_inf_float<From1_Policy>(x) && !is_nan_float<From1_Policy>(x)
+      && !is_inf_float<From2_Policy>(y) && !is_nan_float<From2_Policy>(y)) {
+    // An infinity is not changed by a finite product: the result is exact,
+    // even when the computed product is inexact or overflows.
+    return V_EQ;
+  }
   prepare_inexact<To_Policy>(dir);
   if (fpu_direct_rounding(dir)) {
     to = multiply_add(x, -y, to);
